@@ -36,6 +36,10 @@ def _hist_plan(tier, seed, kinds=BOOL_KINDS, quick_count=30, th_count=600, nmax=
     return plan
 
 
+def _churn_plan(tier, seed, kinds=BOOL_KINDS):
+    return [("gcchurn", {"kind": k, "seed": seed * 41 + i, "tier": tier}) for i, k in enumerate(kinds)]
+
+
 def _tables_plan(tier, seed, groups, kinds=BOOL_KINDS):
     return [("tables", {"kind": k, "seed": seed * 17 + i, "tier": tier, "groups": groups})
             for i, k in enumerate(kinds)]
@@ -63,7 +67,7 @@ def c01(ck, tier, seed):
                       "re-derived by every binary operator, interleaved with drop/gc/add_vars/set_var_order; seeded random "
                       "histories over 2..7 variables; non-trivial = result is neither an operand nor a constant")
     vlib.ensure_tables()
-    plan = _tables_plan(tier, seed, "bool") + _hist_plan(tier, seed, quick_count=40)
+    plan = _tables_plan(tier, seed, "bool") + _hist_plan(tier, seed, quick_count=40) + _churn_plan(tier, seed)
     _bool_suite(ck, ["C01"], plan)
     ck.assumptions += ["denotation of a handle = DDSem!SemMap of the logged sub-graph (node-by-node interpretation in TLA+)",
                        "MTBDD/TDD and pointer backend canonicity are exercised by C10/C11/C20"]
@@ -86,7 +90,7 @@ def c03(ck, tier, seed):
                       "drop-all); invariants Ordered, Reduced(kind), NoDupPerLevel, InOwnLevel, VarLevelInverse, "
                       "node_count = CanonSize (semantic definition, n <= 5)")
     vlib.ensure_tables()
-    plan = _tables_plan(tier, seed, "bool") + _hist_plan(tier, seed, quick_count=40)
+    plan = _tables_plan(tier, seed, "bool") + _hist_plan(tier, seed, quick_count=40) + _churn_plan(tier, seed)
     _bool_suite(ck, ["C03"], plan)
     store_mc(ck, tier)
 
@@ -108,7 +112,12 @@ def c05(ck, tier, seed):
     plan = _hist_plan(tier, seed, quick_count=80)
     # automatic background collections: small capacities, garbage pushed across the high-water mark
     plan += [("bggc", {"kind": k, "seed": seed * 23 + i, "tier": tier}) for i, k in enumerate(BOOL_KINDS)]
+    plan += _churn_plan(tier, seed)
     _bool_suite(ck, ["C05"], plan)
+    # MTBDD / TDD: after every collection exactly the reachable inner nodes and (MTBDD) the terminals in use remain
+    import chk_mv
+    for drv in ["mtbdd", "tdd"]:
+        chk_mv._run(ck, drv, ["C05"], tier, seed + 7)
     ck.cov["background_collections_seen"] = sum(
         s.get("extra", {}).get("bg_collections_seen", 0) for s in getattr(ck, "_summaries", []))
     store_mc(ck, tier)
@@ -122,7 +131,21 @@ def c08(ck, tier, seed):
                       "edge and denotation, C03/C05 invariants on the snapshot after, operations after behave canonically")
     plan = [("reorder", {"kind": k, "seed": seed * 13 + i, "tier": tier}) for i, k in enumerate(BOOL_KINDS)]
     _bool_suite(ck, ["C08"], plan)
-    ck.assumptions += ["concurrent bubble sort path and BubbleSort.tla model check: see evidence.model_checking_runs when present"]
+    # MTBDD and TDD: reorderings with live functions inside the multi-valued histories (TraceMV, mcheck events)
+    import chk_mv
+    for drv in ["tdd", "mtbdd"]:
+        chk_mv._run(ck, drv, ["C08"], tier, seed + 5)
+    # design level: concurrent_bubble_sort transcribed in BubbleSort.tla: all initial permutations of 5 positions,
+    # 3 workers, every interleaving: NoOverlap, SwapsAreInversions, SortedAtEnd, NoStuck (no lost wake-up);
+    # termination under fairness for 4 positions / 2 workers
+    res = vlib.model_check("BubbleSort", "MC_BubbleSort", workers=4, xmx="4g", timeout=900)
+    ck.add_mc(res, must_cover=["Fetch", "AfterSwapAny"])
+    res = vlib.model_check("BubbleSort", "MC_BubbleSortLive", workers=2, xmx="4g", timeout=900, coverage=False)
+    ck.add_mc(res)
+    ck.cov["rule"] += ("; hook (feature oxidd_verif): every other chain and 6/40 runs on 9..11 variables force the concurrent "
+                       "bubble sort (2..8 workers); the recorded swap begin/end events of every set_var_order call must never "
+                       "overlap on a level (same predicate as BubbleSort!NoOverlap)")
+    ck.assumptions += ["swap events are validated for non-overlap and bracketing, not replayed against the sort's internal state"]
 
 
 def c09(ck, tier, seed):
